@@ -251,6 +251,14 @@ class Machine:
                     self.regs[r] = Ptr(spec[1], spec[2])
                 elif spec[0] == "int":
                     self.regs[r] = self.b.const(self.W, spec[1])
+                elif spec[0] == "arg8":
+                    # an 8-bit argument in a wider register whose upper bits the ABI leaves unspecified (AAPCS64): a fresh symbolic
+                    # word; only an explicit masking instruction (front end) turns it into the constant
+                    self.regs[r] = self.b.inp(self.W)
+                    self.seg_in_desc.append(("reg", r, self.W))
+                    if not hasattr(self, "narrow_args"):
+                        self.narrow_args = {}
+                    self.narrow_args[r] = (self.regs[r], spec[1])
                 else:
                     self.regs[r] = self.b.inp(self.W)
                     self.seg_in_desc.append(("reg", r, self.W))
